@@ -1620,17 +1620,19 @@ namespace variant_detail
         {
             if (j.is_int64() || j.is_uint64() || j.is_double())
             {
-                auto count = j.template as<Rep>();
+                // scale before narrowing to Rep
+                using count_type = typename std::common_type<Rep,int64_t>::type;
+                auto count = j.template as<count_type>();
                 switch (j.tag())
                 {
                     case semantic_tag::epoch_second:
-                        return result_type(in_place, count);
+                        return result_type(in_place, static_cast<Rep>(count));
                     case semantic_tag::epoch_milli:
-                        return result_type(in_place, count == 0 ? 0 : count/millis_in_second);
+                        return result_type(in_place, static_cast<Rep>(count == 0 ? 0 : count/millis_in_second));
                     case semantic_tag::epoch_nano:
-                        return result_type(in_place, count == 0 ? 0 : count/nanos_in_second);
+                        return result_type(in_place, static_cast<Rep>(count == 0 ? 0 : count/nanos_in_second));
                     default:
-                        return result_type(in_place, count);
+                        return result_type(in_place, static_cast<Rep>(count));
                 }
             }
             else if (j.is_string())
@@ -1694,7 +1696,9 @@ namespace variant_detail
         {
             if (j.is_int64() || j.is_uint64())
             {
-                auto res = j.template try_as<Rep>();
+                // scale before narrowing to Rep
+                using count_type = typename std::common_type<Rep,int64_t>::type;
+                auto res = j.template try_as<count_type>();
                 if (!res)
                 {
                     return result_type(jsoncons::unexpect, conv_errc::not_epoch);
@@ -1702,13 +1706,13 @@ namespace variant_detail
                 switch (j.tag())
                 {
                     case semantic_tag::epoch_second:
-                        return result_type(in_place, *res*millis_in_second);
+                        return result_type(in_place, static_cast<Rep>(*res*millis_in_second));
                     case semantic_tag::epoch_milli:
-                        return result_type(in_place, *res);
+                        return result_type(in_place, static_cast<Rep>(*res));
                     case semantic_tag::epoch_nano:
-                        return result_type(in_place, *res == 0 ? 0 : *res/nanos_in_milli);
+                        return result_type(in_place, static_cast<Rep>(*res == 0 ? 0 : *res/nanos_in_milli));
                     default:
-                        return result_type(in_place, *res);
+                        return result_type(in_place, static_cast<Rep>(*res));
                 }
             }
             else if (j.is_double())
